@@ -11,9 +11,8 @@ Local Open Scope string_scope.
 
 (* ---- the single-frame record view ---- *)
 Record cview := { cv_pre : list N; cv_post : list N }.
-Record pview := { pv_port : N; pv_leader : cview; pv_follower : option cview }.
 Record fview := {
-  fv_id : Z; fv_ports : list pview;
+  fv_id : Z; fv_chars : list (N * bool * cview);
   fv_start : option (list N); fv_end : option (list N); fv_items : option (list (list N))
 }.
 
@@ -35,12 +34,7 @@ Fixpoint all_ok {A} (l : list (outcome A)) : outcome (list A) :=
 
 Definition frame_view (v : version) (fr : frames) (i : nat) : outcome fview :=
   id <- at_row (f_ids fr) i ;;
-  ports <- all_ok (map (fun p => l <- cdata_view v (p_leader p) i ;;
-                                 f <- (match p_follower p with
-                                       | Some d => x <- cdata_view v d i ;; Ok (Some x)
-                                       | None => Ok None
-                                       end) ;;
-                                 Ok {| pv_port := p_port p; pv_leader := l; pv_follower := f |}) (f_ports fr)) ;;
+  ports <- all_ok (map (fun c => x <- cdata_view v (sl_data c) i ;; Ok (sl_port c, sl_fol c, x)) (f_chars fr)) ;;
   st <- (if vgte v 2 2 then
            match f_start fr with
            | Some rows => r <- at_row rows i ;; Ok (Some (row_vals v "Start" r))
@@ -62,7 +56,7 @@ Definition frame_view (v : version) (fr : frames) (i : nat) : outcome fview :=
             | _, _ => Panic 604
             end
           else Ok None) ;;
-  Ok {| fv_id := id; fv_ports := ports; fv_start := st; fv_end := en; fv_items := its |}.
+  Ok {| fv_id := id; fv_chars := ports; fv_start := st; fv_end := en; fv_items := its |}.
 
 (* ---- Arrow export ---- *)
 Inductive atree :=
@@ -134,15 +128,35 @@ Definition arrow_data (v : version) (name : string) (d : cdata) : outcome atree 
   b <- arrow_struct v "Post" "post" (c_post d) (c_valid d) ;;
   Ok (AStruct name (length (c_pre d)) (c_valid d) [a; b]).
 
+(* regroup the flat character slots into ports: a leader, then its follower if the next slot is one for the same port *)
+Fixpoint group_ports (fuel : nat) (cs : list slot) : list (N * cdata * option cdata) :=
+  match fuel with
+  | O => []
+  | S f =>
+    match cs with
+    | [] => []
+    | c :: r =>
+      match r with
+      | c2 :: r2 =>
+        if sl_fol c2 && N.eqb (sl_port c2) (sl_port c)
+        then (sl_port c, sl_data c, Some (sl_data c2)) :: group_ports f r2
+        else (sl_port c, sl_data c, None) :: group_ports f r
+      | [] => [(sl_port c, sl_data c, None)]
+      end
+    end
+  end.
+
 (* Frame::into_struct_array(version, ports) *)
 Definition arrow_frame (v : version) (fr : frames) : outcome atree :=
   let n := length (f_ids fr) in
-  ports <- all_ok (map (fun p => l <- arrow_data v "leader" (p_leader p) ;;
-                                 f <- (match p_follower p with
-                                       | Some d => x <- arrow_data v "follower" d ;; Ok [x]
-                                       | None => Ok []
-                                       end) ;;
-                                 Ok (AStruct (port_name (p_port p)) (length (c_pre (p_leader p))) None (l :: f))) (f_ports fr)) ;;
+  ports <- all_ok (map (fun g : N * cdata * option cdata =>
+                          l <- arrow_data v "leader" (snd (fst g)) ;;
+                          f <- (match snd g with
+                                | Some d => x <- arrow_data v "follower" d ;; Ok [x]
+                                | None => Ok []
+                                end) ;;
+                          Ok (AStruct (port_name (fst (fst g))) (length (c_pre (snd (fst g)))) None (l :: f)))
+                       (group_ports (length (f_chars fr)) (f_chars fr))) ;;
   _ <- (match ports with [] => Panic 705 | _ => Ok tt end) ;;      (* ports struct with no fields *)
   let base := [APrim "id" I32 (map (fun z => Z.to_N (z mod 4294967296)%Z) (f_ids fr)); AStruct "ports" n None ports] in
   if vgte v 2 2 then
